@@ -72,3 +72,24 @@ pub fn vx_copied_chain_collect<'a, T: Copy + 'a, I: Iterator<Item = &'a T>>(it: 
 {
     it.copied().chain(v).collect()
 }
+pub open spec fn first_true(flags: Seq<bool>) -> Option<int>
+    decreases flags.len()
+{
+    if flags.len() == 0 { None } else if flags[0] { Some(0int) } else { match first_true(flags.drop_first()) { Some(i) => Some(i + 1), None => None } }
+}
+pub proof fn lemma_first_true(flags: Seq<bool>)
+    ensures match first_true(flags) {
+        Some(i) => 0 <= i < flags.len() && flags[i] && forall|j: int| 0 <= j < i ==> !#[trigger] flags[j],
+        None => forall|j: int| 0 <= j < flags.len() ==> !#[trigger] flags[j],
+    },
+    decreases flags.len()
+{
+    if flags.len() > 0 && !flags[0] {
+        let rest = flags.drop_first();
+        lemma_first_true(rest);
+        match first_true(rest) {
+            Some(i) => { assert forall|j: int| 0 <= j < i + 1 implies !#[trigger] flags[j] by { if j > 0 { assert(flags[j] == rest[j - 1]); } } assert(flags[i + 1] == rest[i]); },
+            None => { assert forall|j: int| 0 <= j < flags.len() implies !#[trigger] flags[j] by { if j > 0 { assert(flags[j] == rest[j - 1]); } } },
+        }
+    }
+}
